@@ -252,7 +252,42 @@ def root(n: size, x: f32[4, n], y: f32[4, n], {spare}: f32[n], flag: bool):
     return GenProgram(HEADER + body, "root", ["fill"], [], {"template": "name_clash", "prefer_ops": ["inline", "inline", "unroll_loop", "cut_loop", "specialize", "inline_window"]})
 
 
-ALL = [t_temp2d, t_temp2d_call, t_two_loops, t_reduce_const, t_sliding, t_two_temps, t_split_range, t_writes, t_matmul, t_conv1d, t_blur, t_name_clash]
+def t_config_loop(rng):
+    """a loop (or two adjacent loops) in which one part reads a configuration field and the
+    other writes it: loop-carried dependences through configuration state"""
+    kind = _c(rng, ["bool", "real", "index"])
+    if kind == "bool":
+        read = "if Cfg.b == True:\n            x[i] = 1.0"
+        write = f"Cfg.b = {_c(rng, ['False', 'flag'])}"
+    elif kind == "real":
+        read = "x[i] = Cfg.a + 1.0"
+        write = f"Cfg.a = {_c(rng, ['sc', '2.0'])}"
+    else:
+        read = "if Cfg.n == 1:\n            x[i] = 3.0"
+        write = f"Cfg.n = {_c(rng, [0, 1, 2])}"
+    other = _c(rng, ["y[i] = y[i] * 2.0", "y[i] += 1.0", "y[i] = sc"])
+    read_first = rng.random() < 0.6
+    shape = _c(rng, ["one", "one", "two"])
+    a, b = (read, write) if read_first else (write, read)
+    if shape == "one":
+        parts = [a, other, b] if rng.random() < 0.5 else [a, b, other]
+        loops = "    for i in seq(0, n):\n" + "".join(f"        {p_}\n" for p_ in parts)
+    else:
+        loops = f"    for i in seq(0, n):\n        {a}\n        {other}\n    for i in seq(0, n):\n        {b}\n"
+    body = f"""@config
+class Cfg:
+    n: index
+    a: f32
+    b: bool
+
+@proc
+def root(n: size, x: f32[n], y: f32[n], sc: f32, flag: bool):
+    assert n >= 2
+{loops}"""
+    return GenProgram(HEADER + body, "root", [], ["Cfg"], {"template": "config_loop", "prefer_ops": ["fission", "fission", "autofission", "fuse", "reorder_stmts", "remove_loop", "std.hoist_from_loop"]})
+
+
+ALL = [t_temp2d, t_temp2d_call, t_two_loops, t_reduce_const, t_sliding, t_two_temps, t_split_range, t_writes, t_matmul, t_conv1d, t_blur, t_name_clash, t_config_loop]
 
 
 def any_template(rng):
